@@ -123,12 +123,46 @@ SEARCH["get_offset"] = dict(
     model="(match C02.offsetOf l b with | .error e => ((match e with | .segRange => 1 | .axRange => 2 | .tofRange => 3 | .viewRange => 4 | .tangRange => 5 : Int), (0 : Int)) "
           "| .ok v => if oc == 4 then (6, 0) else (0, v))")
 PD_KERNELS = ["get_index", "get_offset"]
+# C20: storage keys, membership tests, allocated ranges of FanProjData / GeoData3D / DetPairData
+_FD = [("R", "Int", 1, 4), ("N", "Int", 2, 8), ("md", "Int", 0, 3), ("h", "Int", 0, 3)]
+_FDL = ["let d : C20.Dims := ⟨R, N, md, h⟩"]
+_FDR = "N % 2 == 0 && decide (md < R) && decide (2 * h + 1 < N)"
+_FQ = [("ra", "Int", -1, 4), ("a", "Int", -1, 9), ("rb", "Int", -1, 4), ("b", "Int", -2, 17)]
+_FQR = _FDR + " && decide (0 ≤ ra) && decide (ra < R) && decide (0 ≤ rb) && decide (rb < R) && decide (0 ≤ a) && decide (0 ≤ b)"
+SEARCH["fan_key"] = dict(theorems=["bridge_fan_key"], vars=_FD + _FQ, lets=_FDL, real=_FQR,
+    gen="Gen.fan_key d.N d.minB ra a rb b", model="d.storeKey ra a rb b")
+SEARCH["fan_is_in_data"] = dict(theorems=["bridge_fan_is_in_data"], vars=_FD + _FQ, lets=_FDL, real=_FQR,
+    gen="Gen.fan_is_in_data d.N d.minB d.maxB (d.loRb ra) (d.maxRb ra) ra a rb b", model="d.isInData ra a rb b")
+SEARCH["fan_min_rb"] = dict(theorems=["bridge_fan_min_rb"], vars=[("md", "Int", -1, 6), ("ra", "Int", -2, 9)],
+    lets=["let d : C20.Dims := ⟨4, 8, md, 1⟩"], gen="Gen.fan_min_rb d.md ra", model="d.minRb ra")
+SEARCH["fan_ctor_rb_range"] = dict(theorems=["bridge_fan_ctor_rb_range"], vars=[("R", "Int", 0, 8), ("md", "Int", -1, 8), ("ra", "Int", -1, 8)],
+    lets=["let d : C20.Dims := ⟨R, 8, md, 1⟩"], real="decide (0 ≤ md) && decide (md < R) && decide (0 ≤ ra) && decide (ra < R)",
+    gen="Gen.fan_ctor_rb_range d.R d.md ra", model="(d.loRb ra, d.maxRb ra)")
+SEARCH["fan_ctor_b_range"] = dict(theorems=["bridge_fan_ctor_b_range"], vars=[("N", "Int", -2, 12), ("h", "Int", -1, 6), ("a", "Int", -2, 12)],
+    lets=["let d : C20.Dims := ⟨3, N, 1, h⟩"], real="N % 2 == 0 && decide (N ≥ 2) && decide (0 ≤ h) && decide (0 ≤ a) && decide (a < N)",
+    gen="Gen.fan_ctor_b_range d.N d.h a", model="(d.minB a, d.maxB a)")
+_GQ = [("N", "Int", -1, 8), ("ra", "Int", -1, 3), ("a", "Int", -1, 9), ("rb", "Int", -1, 3), ("b", "Int", -2, 17)]
+SEARCH["geo_key"] = dict(theorems=["bridge_geo_key"], vars=_GQ, lets=["let g : C20.GeoDims := ⟨2, 2, 3, N⟩"],
+    real="decide (N ≥ 2) && decide (0 ≤ ra) && decide (0 ≤ rb) && decide (0 ≤ a) && decide (0 ≤ b)",
+    gen="Gen.geo_key g.N (fun a => (Gen.geo_ctor_b_range g.N a).1) ra a rb b", model="g.storeKey ra a rb b")
+SEARCH["geo_ctor_b_range"] = dict(theorems=["bridge_geo_ctor_b_range"], vars=[("N", "Int", -2, 12), ("a", "Int", -2, 12)],
+    gen="Gen.geo_ctor_b_range N a", model="(a, a + N - 1)")
+SEARCH["geo_ctor_rb_range"] = dict(theorems=["bridge_geo_ctor_rb_range"], vars=[("R", "Int", -2, 12), ("ra", "Int", -2, 12)],
+    gen="Gen.geo_ctor_rb_range R ra", model="(ra, R - 1)")
+_DQ = [("N", "Int", -1, 10), ("h", "Int", -1, 4), ("a", "Int", -1, 10), ("b", "Int", -3, 20)]
+_DQR = "N % 2 == 0 && decide (N ≥ 2) && decide (0 ≤ h) && decide (2 * h + 1 < N) && decide (0 ≤ a) && decide (a < N) && decide (0 ≤ b)"
+SEARCH["dp_key"] = dict(theorems=["bridge_dp_key"], vars=_DQ, lets=["let d : C20.DPDims := ⟨N, h⟩"], real=_DQR,
+    gen="(let r := Gen.dp_key d.N d.minB a b; ((0 : Int), r.1, (0 : Int), r.2))", model="d.storeKey a b")
+SEARCH["dp_is_in_data"] = dict(theorems=["bridge_dp_is_in_data"], vars=_DQ, lets=["let d : C20.DPDims := ⟨N, h⟩"], real=_DQR,
+    gen="Gen.dp_is_in_data d.N d.minB d.maxB a b", model="d.isInData a b")
+ML_KERNELS = ["fan_key", "fan_is_in_data", "fan_min_rb", "fan_ctor_rb_range", "fan_ctor_b_range", "geo_key", "geo_ctor_b_range", "geo_ctor_rb_range",
+              "dp_key", "dp_is_in_data"]
 SO_KERNELS = [k for k in SEARCH if k.startswith("so_")] + ["cache_key"] + ["find_sym_op_bin0", "find_sym_op_general_bin"]
 GEN_DIR = ("StirVerif", "Gen")
 
 
 def _search_source(kernels):
-    out = ["import StirVerif.Gen.Kernels", "import StirVerif.C01.Model", "import StirVerif.C06.Model", "import StirVerif.C03.Model", "import StirVerif.C02.Model", "open StirVerif", "",
+    out = ["import StirVerif.Gen.Kernels", "import StirVerif.C01.Model", "import StirVerif.C06.Model", "import StirVerif.C03.Model", "import StirVerif.C02.Model", "import StirVerif.C20.Model", "open StirVerif", "",
            "/-- 0, 1, …, hi, then -1, -2, …, lo: realistic values first -/",
            "def rng (lo hi : Int) : List Int :=",
            "  ((List.range (hi + 1).toNat).map fun (k : Nat) => (k : Int)).filter (fun x => decide (lo ≤ x)) ++",
@@ -314,7 +348,7 @@ def _gate_locked(chk, report_for, vlib, c2lean, t0, text, report):
     found = {}
     search_out = ""
     if searchable:
-        okk, outk = vlib.lean_build(targets=("StirVerif.Gen.Kernels", "StirVerif.C01.Model", "StirVerif.C06.Model", "StirVerif.C03.Model", "StirVerif.C02.Model"))
+        okk, outk = vlib.lean_build(targets=("StirVerif.Gen.Kernels", "StirVerif.C01.Model", "StirVerif.C06.Model", "StirVerif.C03.Model", "StirVerif.C02.Model", "StirVerif.C20.Model"))
         if okk:
             sf = os.path.join(vlib.OUT, "GenSearch.lean")
             with open(sf, "w") as fh:
